@@ -190,8 +190,8 @@ def hint(qual, loop=None, when="head", scoped=False, uses=(), before=None):
 
 # ---------------------------------------------------- run-time reading of the vocabulary
 
-RTOL = 1e-9
-ATOL = 1e-9
+RTOL = 1e-7
+ATOL = 1e-7
 
 
 def forall(rng, pred):
